@@ -284,14 +284,14 @@ fn setters(h: &mut H) {
 			}
 		}
 		// two consecutive set() calls (the first may leave the configuration temporarily invalid)
-		let fields: Vec<(&String, Vec<String>)> = before
+		let fields: Vec<(&String, Vec<(String, J)>)> = before
 			.iter()
 			.filter_map(|(k, v)| {
 				let ft = field_type(v);
 				if ft == FT::Other {
 					return None;
 				}
-				let mut t: Vec<String> = texts(ft).into_iter().filter(|(_, w)| matches!(w, Some(x) if !x.is_null())).map(|(t, _)| t).collect();
+				let mut t: Vec<(String, J)> = texts(ft).into_iter().filter_map(|(t, w)| match w { Some(x) if !x.is_null() => Some((t, x)), _ => None }).collect();
 				// a spread of the parsable texts
 				let n = t.len();
 				if n > 6 {
@@ -302,8 +302,8 @@ fn setters(h: &mut H) {
 			.collect();
 		for (k1, t1s) in &fields {
 			for (k2, t2s) in &fields {
-				for t1 in t1s {
-					for t2 in t2s {
+				for (t1, w1) in t1s {
+					for (t2, w2) in t2s {
 						cases += 1;
 						let mut c = c0.boxed_clone();
 						let mut d = c0.as_dyn();
@@ -312,6 +312,19 @@ fn setters(h: &mut H) {
 						let case = format!("{name}.set({k1:?}, {t1:?}); set({k2:?}, {t2:?})");
 						match (r, rd) {
 							(Ok(a), Ok(b)) if a == b => {
+								// each successful call changes exactly the named parameter - whatever the other
+								// parameters hold at that moment (a value equal to another field's, ...)
+								let mut expect = before.clone();
+								if a.0 {
+									expect.insert((*k1).clone(), w1.clone());
+								}
+								if a.1 {
+									expect.insert((*k2).clone(), w2.clone());
+								}
+								let after = json_map(&c.to_json().unwrap_or_default());
+								if let Some(k) = expect.keys().find(|k| !json_eq(&expect[*k], after.get(*k).unwrap_or(&J::Null))) {
+									sink.push(&format!("{name}/set-twice/wrong-value/{k}"), case.clone(), format!("{k} is {} afterwards, expected {} (the calls returned Ok: {}, {})", after.get(k).unwrap_or(&J::Null), expect[k], a.0, a.1));
+								}
 								if let Some(x) = dyn_differs(c.as_ref(), d.as_ref(), &probe) {
 									sink.push(&format!("{name}/set-twice/dyn-state-differs"), case, x);
 								}
